@@ -119,10 +119,14 @@ def build_bm(variant='clmul', force=False):
   with open(wrap, 'w') as f:
     f.write(_BM_WRAPPER)
   cmd = ['g++', '-O2', '-std=c++17', '-shared', '-fPIC', '-I', REPO]
+  # gcc's -mpclmul defines __PCLMUL__, not the __CLMUL__ the source tests for: define it
+  # explicitly so that the carry-less-multiplication code path really is compiled.
   if variant == 'clmul':
-    cmd.append('-mpclmul')
+    cmd += ['-mpclmul', '-msse4.1', '-D__CLMUL__']
   elif variant == 'asan':
-    cmd += ['-mpclmul', '-fsanitize=address', '-g']
+    cmd += ['-mpclmul', '-msse4.1', '-D__CLMUL__', '-fsanitize=address', '-g']
+  elif variant == 'setup':   # exactly the flags of setup.py
+    cmd += ['-mpclmul']
   tmp = so + '.tmp%d' % os.getpid()
   cmd += [wrap, src, '-o', tmp]
   subprocess.run(cmd, check=True, capture_output=True)
